@@ -486,6 +486,11 @@ func VerifyFunc(w *World, c *Contract) (res *FuncResult) {
 				res.Errors = append(res.Errors, fmt.Sprintf("returns clause at %s:%d could not be evaluated at any return (a local it mentions does not exist)", shortFile(e.File), e.Line))
 			}
 		}
+		for _, sc := range c.Sites {
+			if x.siteCount[sc.Site] == 0 && len(res.Errors) == 0 {
+				res.Errors = append(res.Errors, fmt.Sprintf("site clause at %s:%d matched no call (%s)", shortFile(sc.File), sc.Line, sc.Site))
+			}
+		}
 		res.Obligations = x.obls
 		res.Rebound = x.rebound
 		res.Locals = map[string]string{}
